@@ -416,6 +416,52 @@ async fn read_op(ctx: &ConnCtx, r: &mut Reader, i: &str, op: &Op) -> Outcome {
                     }
                 }
             }
+            "recv_socks4_request" => {
+                // VN CD PORT IP USERID 00 [DOMAIN 00]
+                loop {
+                    let mut need = None;
+                    if r.buf.len() >= 9 {
+                        if let Some(p) = r.buf[8..].iter().position(|b| *b == 0) {
+                            let end1 = 8 + p + 1;
+                            let is4a = r.buf[4] == 0 && r.buf[5] == 0 && r.buf[6] == 0 && r.buf[7] != 0;
+                            if !is4a {
+                                need = Some(end1);
+                            } else if let Some(q) = r.buf[end1..].iter().position(|b| *b == 0) {
+                                need = Some(end1 + q + 1);
+                            }
+                        }
+                    }
+                    if let Some(n) = need {
+                        return ("ok".to_string(), r.buf.drain(..n).collect());
+                    }
+                    if r.buf.len() > 70000 {
+                        return ("toolong".to_string(), r.buf.drain(..).collect());
+                    }
+                    match r.fill().await {
+                        Ok(0) => return (format!("eof@{}", r.buf.len()), r.buf.drain(..).collect()),
+                        Ok(_) => {}
+                        Err(e) => return (io_res(&e), r.buf.drain(..).collect()),
+                    }
+                }
+            }
+            "recv_rpfm" => {
+                // MAGIC(4) SESSION(4) ATTR_LEN(2) BODY_LEN(2) ATTR BODY
+                loop {
+                    if r.buf.len() >= 12 {
+                        let al = u16::from_be_bytes([r.buf[8], r.buf[9]]) as usize;
+                        let bl = u16::from_be_bytes([r.buf[10], r.buf[11]]) as usize;
+                        let need = 12 + al + bl;
+                        if r.buf.len() >= need {
+                            return ("ok".to_string(), r.buf.drain(..need).collect());
+                        }
+                    }
+                    match r.fill().await {
+                        Ok(0) => return (format!("eof@{}", r.buf.len()), r.buf.drain(..).collect()),
+                        Ok(_) => {}
+                        Err(e) => return (io_res(&e), r.buf.drain(..).collect()),
+                    }
+                }
+            }
             "recv_eof" => {
                 // read until EOF or error; report how much came
                 let mut got: Vec<u8> = r.buf.drain(..).collect();
@@ -566,7 +612,7 @@ async fn write_op(ctx: &ConnCtx, w: &mut Writer, i: &str, op: &Op) -> Outcome {
 }
 
 fn is_read_op(o: &str) -> bool {
-    matches!(o, "recv_n" | "recv_until" | "recv_http_head" | "recv_socks5_reply" | "recv_eof" | "expect")
+    matches!(o, "recv_n" | "recv_until" | "recv_http_head" | "recv_socks5_reply" | "recv_socks4_request" | "recv_rpfm" | "recv_eof" | "expect")
 }
 fn is_write_op(o: &str) -> bool {
     matches!(o, "send" | "shutdown")
@@ -687,6 +733,45 @@ pub async fn run_script(ctx: ConnCtx, stream: BoxStream, ops: Vec<Op>) {
                         Outcome::Ok
                     } else {
                         Outcome::Fail("par".into())
+                    }
+                }
+                "serve_tagged" => {
+                    // self-describing tunnels: 32-byte header "TAG1" seed c2s_len s2c_len flags,
+                    // then verify the client's stream and send the derived reply stream.
+                    let hdr_op = Op { op: "recv_n".into(), n: 32, timeout_ms: op.timeout_ms, label: Some("tag".into()), ..Default::default() };
+                    match read_op(&ctx, &mut r, &format!("{}h", i), &hdr_op).await {
+                        Outcome::Ok => {
+                            // the header bytes were recorded by read_op; parse them again from the record
+                            let hdr = ctx.sh.records.lock().unwrap().last().and_then(|v| v.get("hex").and_then(|h| h.as_str()).map(unhex)).unwrap_or_default();
+                            if hdr.len() == 32 && &hdr[..4] == b"TAG1" {
+                                let u = |o: usize| u64::from_le_bytes(hdr[o..o + 8].try_into().unwrap());
+                                let (seed, c2s, s2c) = (u(4), u(12), u(20));
+                                let flags = u32::from_le_bytes(hdr[28..32].try_into().unwrap());
+                                let rops = vec![
+                                    Op { op: "expect".into(), fill: Some((seed, c2s)), timeout_ms: op.timeout_ms, ..Default::default() },
+                                    Op { op: "recv_eof".into(), timeout_ms: op.timeout_ms, ..Default::default() },
+                                ];
+                                let mut wops = vec![Op { op: "send".into(), fill: Some((seed ^ 0x5A5A_5A5A_5A5A_5A5A, s2c)), chunk: op.chunk, timeout_ms: op.timeout_ms, ..Default::default() }];
+                                if flags & 1 == 0 {
+                                    wops.push(Op { op: "shutdown".into(), ..Default::default() });
+                                }
+                                let mut m = rec_base(&ctx, &i, op);
+                                m.insert("tag_seed".into(), json!(seed));
+                                let (pr, pw) = (format!("{}r", i), format!("{}w", i));
+                                let (a, b) = tokio::join!(run_reader_seq(&ctx, &mut r, &pr, &rops), run_writer_seq(&ctx, &mut w, &pw, &wops));
+                                rec_end(&ctx, m, if a && b { "ok" } else { "fail" });
+                                if a && b {
+                                    Outcome::Ok
+                                } else {
+                                    Outcome::Fail("tagged".into())
+                                }
+                            } else {
+                                let m = rec_base(&ctx, &i, op);
+                                rec_end(&ctx, m, "badtag");
+                                Outcome::Fail("badtag".into())
+                            }
+                        }
+                        Outcome::Fail(e) => Outcome::Fail(e),
                     }
                 }
                 "reset" => {
